@@ -305,7 +305,7 @@ func genC16(dir, tier string, seed int64) {
 	res := goOnlyResult{Stream: "C16_batch_vs_rows", Rule: "the loadable sample models (mlp, gru, scaler, ndm) and generated models built from the per-sample operator families (Gemm/MatMul against weights incl. the batched-MatMul path, Conv 1-D/2-D, RNN/GRU/LSTM with given and default states and with a per-sample sequence_lens input (refused today: then every selection of the batch must be refused as well), elementwise chains against broadcast weights, PRelu, Softmax/LogSoftmax over non-batch axes, batch-preserving Unsqueeze/Transpose/Squeeze/Concat/Reshape/Slice/Gather, ReduceMax/Min over non-batch axes, Scaler/LinearRegressor): a batch of N = 1..5 random samples is evaluated; then every sample alone (N = 1), the batch in a random permutation, and a random sub-selection (incl. repeated rows); every output row must agree with the row computed in the other composition within |a-b| <= 1e-5 (1+|a|) (the repository's own delta)", Violations: []string{}, Known: map[string]int{}}
 	reps := 2
 	if tier == "thorough" {
-		reps = 40
+		reps = 150
 	}
 	run := func(m *gonnx.Model, bm *batchModel, ins []tensor.Tensor) (outs []tensor.Tensor, err error) {
 		defer func() {
